@@ -5,6 +5,8 @@ import random
 
 import core
 import corr_binding
+import corr_semcond
+import tgen
 import semcheck
 import semprop
 
@@ -48,6 +50,14 @@ def run(ctx) -> int:
         extra = [m["program"] for m in r["mismatches"][:40]]
         ctx.cov["samples"].append({"correspondence": "binding + projection ops", "evaluations": r["evaluations"],
                                    "accepted_splits": r["histogram"].get("good_split:split", 0)})
+        r2 = corr_semcond.run(random.Random(ctx.rng.random()), 60 if ctx.quick() else 2000, corpus_limit=20 if ctx.quick() else None)
+        ctx.cov["evaluations"] += r2["evaluations"]
+        ctx.cov["distinct_nontrivial"] += r2["nontrivial"]
+        ctx.cov["histogram"].update({"corr:theorem side conditions on real rewrites:" + k: v for k, v in r2["histogram"].items()})
+        for m in r2["mismatches"][:20]:
+            ctx.mismatches.append({"op": m["op"], "program": m["program"], "impl": str(m["impl"])[:500], "model": str(m["model"])[:500]})
+        extra += list(r2.get("extra_programs", []))[:40]
+    extra += [tgen.gen_projection(ctx.rng) for _ in range(40 if ctx.quick() else 1500)]
     semprop.replay_known(ctx)
     flags = semcheck.flags_only("projection")
     cases = semprop.oracle_cases(ctx, [flags], "voc", 110 if ctx.quick() else 700, 80 if ctx.quick() else 3000,
